@@ -375,6 +375,83 @@ case("C16", "C16-m-idem", "mutant", "armhf mapped to arm with an empty variant (
 case("C16", "C16-b-ifform", "benign", "macos alias written as an if statement",
      edits=[("types/platform/platform.go", "\tswitch p.OS {\n\tcase \"macos\":\n\t\tp.OS = \"darwin\"\n\t}\n", "\tif p.OS == \"macos\" {\n\t\tp.OS = \"darwin\"\n\t}\n")])
 
+# ---------------------------------------------------------------- second round of seeded changes (generated from the matrix)
+case('C01', "C01-seed3", "mutant", 'seeded: types/blob BReader gains an io.WriterTo implementation so io.Copy can stream a blob straight from the underlyi',
+     patch="seeded/C01-3/patch.diff", expect=[('C01.R2', 'Read', 'digest test on every EOF path')])
+case('C01', "C01-seed4", "mutant", 'seeded: scheme/ocidir BlobGet and BlobHead duplicated the validate-digest / build-path / open / stat sequence; the cha',
+     patch="seeded/C01-4/patch.diff", expect=[('C01.R1', 'BlobGet', 'blob.NewReader')])
+case('C02', "C02-seed3", "mutant", 'seeded: image.go imageExportDescriptor (used by RegClient.ImageExport): the two places that wrote a fetched manifest i',
+     patch="seeded/C02-3/patch.diff", expect=[('C02.R8', 'imageExportDescriptor', 'JSON encoding through tarWriteFileJSON')])
+case('C02', "C02-seed4", "mutant", 'seeded: types/manifest/manifest.go fromCommon: when a raw body is present the descriptor size was unconditionally rese',
+     patch="seeded/C02-4/patch.diff", expect=[('C02.R7', 'fromCommon', 'descriptor digest')])
+case('C03', "C03-seed3", "mutant", 'seeded: In regclient.BlobCopy (blob.go) the local copy of the descriptor with the URLs stripped (tDesc := d; tDesc.URL',
+     patch="seeded/C03-3/patch.diff", expect=[('C03.R7', 'BlobCopy', 'BlobHead on the target')])
+case('C03', "C03-seed4", "mutant", "seeded: scheme/ocidir.Close was restructured to 'stop leaking modRefs entries': the single guard (!ok || !gc.mod || gc",
+     patch="seeded/C03-4/patch.diff", expect=[('C03.R9', 'Close', 'delete(modRefs)')])
+case('C04', "C04-seed4", "mutant", 'seeded: scheme/ocidir/manifest.go: manifestPut is refactored, the tmpfile+rename code that stores the manifest in blob',
+     patch="seeded/C04-4/patch.diff", expect=[('C04.R7', 'manifestPut', 'index update after rename')])
+case('C06', "C06-seed3", "mutant", 'seeded: Defensive guard added to the Link-following loop in scheme/reg/tag.go TagList: when a followed page contains n',
+     patch="seeded/C06-3/patch.diff", expect=[('C06.R4', 'TagList', 'loop exit')])
+case('C06', "C06-seed4", "mutant", 'seeded: Reordering in scheme/ocidir/manifest.go ManifestDelete: the readIndex call is hoisted above the referrer handl',
+     patch="seeded/C06-4/patch.diff", expect=[('C06.R7', 'ManifestDelete', 'write of the index read earlier')])
+case('C07', "C07-seed3", "mutant", 'seeded: writeIndex in scheme/ocidir/ocidir.go no longer stages the new index.json in a randomly named temp file (os.Cr',
+     patch="seeded/C07-3/patch.diff", expect=[('C07.R1', 'lockIndex', 'os.OpenFile')])
+case('C07', "C07-seed4", "mutant", 'seeded: BlobPut in scheme/ocidir/blob.go now removes an already existing blobs/<alg>/<hex> before renaming the verifie',
+     patch="seeded/C07-4/patch.diff", expect=[('C07.R4', 'BlobPut', 'os.Rename destination')])
+case('C08', "C08-seed3", "mutant", "seeded: ImageCopy's inline GCLock/defer GCUnlock on the target is replaced by a helper imageCopyGCLock(refTgt, opt.ref",
+     patch="seeded/C08-3/patch.diff", expect=[('C08.R1', 'imageCopyGCLock', 'GCLock paired with defer GCUnlock')])
+case('C08', "C08-seed4", "mutant", 'seeded: The sweep phase of OCIDir.Close now validates every directory entry under blobs/ before considering it: the al',
+     patch="seeded/C08-4/patch.diff", expect=[('C08.R6', 'Close', "sweep removal independent of the name's shape")])
+case('C09', "C09-seed4", "mutant", "seeded: imageImportOCIAddHandler (image.go) is 'simplified': instead of registering handlers for both oci-layout and i",
+     patch="seeded/C09-4/patch.diff", expect=[('C09.R6', 'imageImportOCIAddHandler$2', 'handler registered during the scan')])
+case('C10', "C10-seed3", "mutant", "seeded: Robustness clean-up of scheme/ocidir ManifestDelete: index.json is now read once at the top of the function ('",
+     patch="seeded/C10-3/patch.diff", expect=[('C10.R6', 'ManifestDelete', 'write of the index read earlier')])
+case('C10', "C10-seed4", "mutant", "seeded: Optimisation in cmd/regctl 'manifest rm' (also reached as 'image rm/delete'): when --force-tag-dereference res",
+     patch="seeded/C10-4/patch.diff", expect=[('C10.R7', 'runManifestDelete', 'WithManifest argument')])
+case('C11', "C11-seed3", "mutant", 'seeded: Log masking of rejected host entries is moved from the call site into a new slog.LogValuer on config.Host, but',
+     patch="seeded/C11-3/patch.diff", expect=[('C11.R6', 'hostLoad', 'slog struct Host')])
+case('C11', "C11-seed4", "mutant", "seeded: config/docker.go: entries of docker's config.json are now created through a new helper dockerHostNew(name) ins",
+     patch="seeded/C11-4/patch.diff", expect=[('C11.R8', 'dockerHostNew', 'strings.HasSuffix')])
+case('C12', "C12-seed3", "mutant", 'seeded: internal/reghttp/http.go: the mirror sort is modernised from sort.Slice with an index based less-function to s',
+     patch="seeded/C12-3/patch.diff", expect=[('C12.R5', 'sortHostsCmp$1', 'backing-off hosts after the others')])
+case('C12', "C12-seed4", "mutant", 'seeded: cmd/regsync/root.go: processRegistry is refactored so that paging through the _catalog API is extracted into a',
+     patch="seeded/C12-4/patch.diff", expect=[('C12.R7', 'repoListAll', 'marker pager')])
+case('C13', "C13-seed4", "mutant", 'seeded: mod/config.go WithConfigTimestamp: after reading the base image config with rc.ImageConfig(optTime.BaseRef) th',
+     patch="seeded/C13-4/patch.diff", expect=[('C13.R6', 'WithConfigTimestamp$1$1', 'RegClient.Close')])
+case('C14', "C14-seed3", "mutant", 'seeded: blob.go, RegClient.BlobCopy: the cross repository mount on the same registry is now only attempted when the de',
+     patch="seeded/C14-3/patch.diff", expect=[('C14.R1', 'BlobCopy', 'mount attempted on the same registry')])
+case('C14', "C14-seed4", "mutant", 'seeded: scheme/reg/blob.go Reg.BlobHead and scheme/ocidir/blob.go OCIDir.BlobHead: both schemes now verify the stored ',
+     patch="seeded/C14-4/patch.diff", expect=[('C14.R5', 'BlobHead', 'ContentLength compared with a size')])
+case('C15', "C15-seed3", "mutant", "seeded: Ref.CommonName (types/ref/ref.go) now trims trailing '/' characters from the OCI layout path before printing a",
+     patch="seeded/C15-3/patch.diff", expect=[('C15.R6', 'CommonName', 'field Path rewritten by strings.TrimRight')])
+case('C16', "C16-seed4", "mutant", "seeded: types/platform/platform.go normalize(): the combined switch cases 'x86_64, x86-64, amd64' and 'aarch64, arm64'",
+     patch="seeded/C16-4/patch.diff", expect=[('C16.R1', 'normalize', 'normal form is a fixed point')])
+case('C17', "C17-seed3", "mutant", 'seeded: scheme/ocidir Close(): after the garbage collection the per-path state is dropped, and besides modRefs[r.Path]',
+     patch="seeded/C17-3/patch.diff", expect=[('C17.R7', 'Close', 'delete on a map of throttles')])
+case('C17', "C17-seed4", "mutant", "seeded: cmd/regbot/sandbox imageCopy(): optimisation that releases the shared 'parallel' throttle as soon as the copy ",
+     patch="seeded/C17-4/patch.diff", expect=[('C17.R6', 'imageCopy', 'Acquire')])
+case('C19', "C19-seed3", "mutant", 'seeded: Race fix in cmd/regbot/root.go runOnce: the error variable shared between the script goroutines (mainErr, writ',
+     patch="seeded/C19-3/patch.diff", expect=[('C19.R5', 'runOnce', 'script run')])
+case('C19', "C19-seed4", "mutant", 'seeded: Clean-up in cmd/regbot/sandbox: the per-binding `if s.dryRun { return 0 }` checks of manifest.put, <manifest>:',
+     patch="seeded/C19-4/patch.diff", expect=[('C19.R1', 'manifestDelete', 'ungated call of ManifestDelete')])
+case('C20', "C20-seed3", "mutant", "seeded: Refactor of scheme/ocidir/blob.go: the three copies of 'Digest.Validate() + path.Join(r.Path, 'blobs', algo, e",
+     patch="seeded/C20-3/patch.diff", expect=[('C20.R1', 'BlobDelete', 'os.Remove path')])
+case('C20', "C20-seed4", "mutant", "seeded: De-duplication refactor in scheme/ocidir/manifest.go: the identical 'resolve ref to descriptor' block of manif",
+     patch="seeded/C20-4/patch.diff", expect=[('C20.R1', 'ManifestHead', 'os.ReadFile path')])
+
+case("C07", "C07-b-writehelper", "benign", "manifestPut's temp-write-rename sequence moved into a helper, same order",
+     patch="selftest/variants/C07-b-writehelper.diff")
+case("C02", "C02-b-writehelper", "benign", "layout manifestPut writes through a helper (bytes and name still from the same manifest)",
+     patch="selftest/variants/C07-b-writehelper.diff")
+case("C20", "C20-b-writehelper", "benign", "layout manifest write helper takes the validated digest as a parameter",
+     patch="selftest/variants/C07-b-writehelper.diff")
+case("C04", "C04-b-writehelper", "benign", "layout manifest write helper, index still updated after the rename",
+     patch="selftest/variants/C07-b-writehelper.diff")
+case("C02", "C02-D15", "mutant", "historical defect D15 re-introduced: fromOrig keeps a supplied size and hashes the re-marshalled struct",
+     patch="selftest/regress/D15.diff", expect=[("C02.R7", "fromOrig", "descriptor digest")])
+case("C09", "C09-D16", "mutant", "historical defect D16 re-introduced: index-entry handler reads the entry, then imports it as a blob from the drained stream",
+     patch="selftest/regress/D16.diff", expect=[("C09.R7", "imageImportOCIHandleManifest", "entry read")])
+
 def main():
     bad = 0
     for pid, cases in CASES.items():
@@ -388,6 +465,11 @@ def main():
             if c.get("patch") and not os.path.exists(os.path.join("/verif", c["patch"])):
                 print(f"!! {c['id']}: patch {c['patch']} missing")
                 bad += 1
+        if pid in ("C12", "C19"):
+            # hand-written files: merge by id
+            old = json.load(open(f"/verif/selftest/{pid}.json"))
+            ids = {c["id"] for c in cases}
+            cases = [c for c in old if c["id"] not in ids] + cases
         json.dump(cases, open(f"/verif/selftest/{pid}.json", "w"), indent=1)
         print(pid, len(cases), "cases")
     sys.exit(1 if bad else 0)
